@@ -19,6 +19,7 @@ GROUPS = {
     'Loss': ['C12', 'C13'],
     'FC': ['C16', 'C11'],
     'SGD': ['C17', 'C11'],
+    'Valid': ['C09'],
 }
 # wiring of the public tensor operations: validators / raw operation / gradtrack constructor per method
 WIRING_PROPS = ['C02', 'C08', 'C09']
@@ -42,9 +43,6 @@ def run(pid, repo='/repo'):
     """-> dict(groups=[...], status='ok'|'drift'|'skipped', drift=[str], translated=int, untranslated={...})"""
     groups = [g for g, ps in GROUPS.items() if pid in ps]
     res = {'groups': groups, 'status': 'ok', 'drift': [], 'wiring_checked': pid in WIRING_PROPS}
-    if not groups and pid not in WIRING_PROPS:
-        res['status'] = 'skipped'
-        return res
     if not os.path.exists(XLATE):
         r = subprocess.run(['go', 'build', '-o', XLATE, '.'], cwd=os.path.join(VERIF, 'xlate'), env=GOENV, capture_output=True, text=True)
         if r.returncode != 0:
@@ -63,7 +61,7 @@ def run(pid, repo='/repo'):
     res['translated'] = len(rep.get('translated', []))
     res['untranslated'] = rep.get('untranslated', {})
     # 1. regenerate the Lean files of the groups (atomic replace; identical content is left alone)
-    for g in ('Rules', 'Act', 'Loss', 'FC', 'SGD'):
+    for g in ('Rules', 'Act', 'Loss', 'FC', 'SGD', 'Valid'):
         src = os.path.join(out, g + '.lean'); dst = os.path.join(LEAN, 'QeepGen', g + '.lean')
         if not os.path.exists(src):
             open(src, 'w').write('/- nothing translatable -/\n')
@@ -106,6 +104,19 @@ def run(pid, repo='/repo'):
         for k in rep.get('wiring', {}):
             if k not in exp.get('wiring', {}):
                 res['drift'].append('cputensor.go: new exported function %s' % k)
+    # 5. fingerprints: which functions of the files this property is anchored in differ from the reviewed source
+    anchored = set()
+    for l in open(os.path.join(VERIF, 'properties.jsonl')):
+        pr = json.loads(l)
+        if pr['id'] == pid:
+            anchored = set(pr.get('anchors', {}).get('files', []))
+    adirs = {os.path.dirname(f) for f in anchored}
+    eh, nh = exp.get('func_hashes', {}), rep.get('func_hashes', {})
+    changed = sorted(k for k in set(eh) | set(nh) if eh.get(k) != nh.get(k))
+    res['functions_changed'] = changed[:40]
+    rel = [k for k in changed if k.split(':')[0] in anchored or (k not in eh and os.path.dirname(k.split(':')[0]) in adirs)]
+    if rel:
+        res['drift'].append('source differs from the reviewed tree in: ' + ', '.join(rel[:12]) + (' …' if len(rel) > 12 else ''))
     shutil.rmtree(out, ignore_errors=True)
     try:
         os.remove(rep_path)
@@ -120,7 +131,7 @@ def _prefixes(groups):
     p = []
     for g in groups:
         p += {'Rules': ['gradients.', 'gradient_helpers.'], 'Act': ['relu.', 'leaky_relu.', 'sigmoid.', 'tanh.', 'softmax.'],
-              'Loss': ['mse.', 'bce.', 'ce.'], 'FC': ['fc.'], 'SGD': ['sgd.']}[g]
+              'Loss': ['mse.', 'bce.', 'ce.'], 'FC': ['fc.'], 'SGD': ['sgd.'], 'Valid': ['validator.']}[g]
     return p
 
 
@@ -132,7 +143,7 @@ if __name__ == '__main__':
         subprocess.run([XLATE, sys.argv[2] if len(sys.argv) > 2 else '/repo', out, rp], check=True)
         rep = json.load(open(rp))
         exp = {'untranslated': sorted(rep['untranslated']), 'constructors': rep['constructors'], 'wiring': rep['wiring'],
-               'translated': rep['translated']}
+               'translated': rep['translated'], 'func_hashes': rep['func_hashes']}
         json.dump(exp, open(os.path.join(VERIF, 'xlate', 'expected.json'), 'w'), indent=1, sort_keys=True)
         print('written')
     else:
